@@ -489,7 +489,8 @@ def _opt_list(w):
 
 
 # expl_noise / mean_noise: read-only configuration arrays of DDPG/TD3/MADDPG/MATD3 (never written in place)
-EXT_SKIP = {"observation_space", "action_space", "observation_spaces", "action_spaces", "expl_noise", "mean_noise"}
+# net_config: the caller's configuration dictionary (multi-agent image networks store a read-only sample_input tensor in it)
+EXT_SKIP = {"observation_space", "action_space", "observation_spaces", "action_spaces", "expl_noise", "mean_noise", "net_config"}
 
 
 def slots(agent):
@@ -554,7 +555,32 @@ def slots(agent):
             out.append((f"attr.{n}", "ext", ("T", v.data_ptr()), _fp_tensor(v)))
         elif isinstance(v, np.ndarray) and v.size > 0:
             out.append((f"attr.{n}", "ext", ("A", v.__array_interface__["data"][0]), _fp_obj(v.tolist())))
+        elif isinstance(v, (list, tuple, dict)) and not _plain(v)[0]:
+            # container-valued attribute (MADDPG / MATD3 keep their OU-noise state in LISTS of tensors): walk down to the
+            # mutable leaves -- each tensor / ndarray element is a cell of its own
+            _walk_leaves(f"attr.{n}", v, 0, out, seen_ptr)
     return out
+
+
+def _walk_leaves(name, v, depth, out, seen_ptr):
+    if isinstance(v, torch.Tensor):
+        p = ("T", v.data_ptr())
+        if v.numel() > 0 and p not in seen_ptr:
+            seen_ptr.add(p)
+            out.append((name, "ext", p, _fp_tensor(v)))
+    elif isinstance(v, np.ndarray):
+        p = ("A", v.__array_interface__["data"][0])
+        if v.size > 0 and v.dtype != object and p not in seen_ptr:
+            seen_ptr.add(p)
+            out.append((name, "ext", p, _fp_obj(v.tolist())))
+    elif depth >= 3 or isinstance(v, (torch.nn.Module, spaces.Space, OptimizerWrapper, torch.optim.Optimizer)):
+        return
+    elif isinstance(v, dict):
+        for k, x in sorted(v.items(), key=lambda kv: str(kv[0])):
+            _walk_leaves(f"{name}.{k}", x, depth + 1, out, seen_ptr)
+    elif isinstance(v, (list, tuple)):
+        for k, x in enumerate(v):
+            _walk_leaves(f"{name}[{k}]", x, depth + 1, out, seen_ptr)
 
 
 def wrapper_slots(agent):
@@ -784,6 +810,32 @@ def apply_select(pop, draws, elitism=True, tournament_size=2):
         np.random.randint = orig
     best = max(range(len(pop)), key=lambda i: np.mean(unwrap(pop[i]).fitness[-1:]))
     return list(new_pop) + [elite], best
+
+
+OU_ALGOS = {"DDPG", "TD3", "MADDPG", "MATD3"}
+
+
+def explore(agent, spec, seed):
+    """get_action in TRAINING mode (exploration noise is drawn and, with O_U_noise=True, the OU state advances)"""
+    a = unwrap(agent)
+    algo = spec["algo"]
+    g = torch.Generator().manual_seed(int(seed) + 555)
+    seed_all(int(seed) + 37)
+    a.set_training_mode(True)
+
+    def npobs(space, n):
+        o = rand_obs(space, n, g)
+        return {k: v.numpy() for k, v in o.items()} if isinstance(o, dict) else o.numpy()
+    if algo in ("MADDPG", "MATD3"):
+        obs = {i: npobs(a.observation_spaces[k], 1) for k, i in enumerate(a.agent_ids)}
+    else:
+        obs = npobs(a.observation_space, 1)
+    return _arr(agent.get_action(obs))
+
+
+def reset_noise(agent):
+    """reset_action_noise([0]): zeroes row 0 of every OU-noise state IN PLACE"""
+    unwrap(agent).reset_action_noise([0])
 
 
 def apply_tags(agent, i):
